@@ -23,7 +23,7 @@ import re
 import shlex
 
 from .lifter import (Source, Seg, Edits, LiftError, find_loops, rewrite_tail_continue,
-                     rewrite_string_add, rewrite_ctor_fn_value, strip_visibility, rewrite_try, rewrite_format)
+                     rewrite_string_add, rewrite_ctor_fn_value, strip_visibility, rewrite_try, rewrite_format, rewrite_method_shims, annotate_closures)
 
 REPO = os.environ.get('VERIF_REPO', '/repo')
 VERIF = os.path.dirname(os.path.dirname(os.path.abspath(__file__)))
@@ -70,6 +70,8 @@ class Block:
         self.outlines = []
         self.add_params = []
         self.add_generics = None
+        self.shim_methods = {}
+        self.closures = {}
 
 
 def parse_template(text):
@@ -119,6 +121,8 @@ def parse_template(text):
                     blk.loops[meta['_loop']].setdefault(sec, []).append((meta.get('_name'), txt))
                 elif sec == 'proof':
                     blk.proofs.append((meta, txt))
+                elif sec == 'closure':
+                    blk.closures[meta['_k']]['ensures'] = txt
 
             curloop = None
             while i < len(lines):
@@ -157,6 +161,15 @@ def parse_template(text):
                     elif key == 'outline':
                         om = dict(shlex.split(kv)[0].split('=', 1) if False else kv.split('=', 1) for kv in shlex.split(d[len('outline'):]))
                         blk.outlines.append(om)
+                    elif key == 'shim_method':
+                        # //@shim_method all => vx_iter_all [prefix=&mut ]
+                        mm = re.match(r'shim_method\s+(\w+)\s*=>\s*(\w+)(?:\s+prefix=(.*))?$', d)
+                        blk.shim_methods[mm.group(1)] = (mm.group(2), (mm.group(3) or ''))
+                    elif key == 'closure':
+                        # //@closure K params="c: char" ret="b: bool"   followed by the ensures text
+                        kv = dict(x.split('=', 1) for x in shlex.split(d)[2:])
+                        blk.closures[int(w[1])] = {'params': kv['params'], 'ret': kv['ret'], 'ensures': ''}
+                        cur = ('closure', {'_k': int(w[1])})
                     elif key == 'add_generics':
                         blk.add_generics = d[len('add_generics'):].strip()
                     elif key == 'add_param':
@@ -278,6 +291,10 @@ def _body_rewrites(src, ed, lo, hi, loops, blk, log):
     rewrite_tail_continue(src, ed, loops, lo, hi, log)
     rewrite_string_add(src, ed, lo, hi, log)
     rewrite_ctor_fn_value(src, ed, lo, hi, log)
+    if blk.shim_methods:
+        rewrite_method_shims(src, ed, lo, hi, blk.shim_methods, log)
+    if blk.closures:
+        annotate_closures(src, ed, lo, hi, blk.closures, log)
     if blk.args.get('format') == 'fmt1':
         rewrite_format(src, ed, lo, hi, log)
     if blk.args.get('desugar_try'):
@@ -552,6 +569,8 @@ def lift_block(blk, log, meta, canary=False):
             segs.extend(body)
             segs.append(Seg('\n}\n', tag='R0-impl'))
     else:
+        if a.get('loop_isolation') == '0':
+            segs.append(Seg('#[verifier::loop_isolation(false)]\n', tag='R0-attr'))
         segs.append(Seg(header.strip() + '\n', tag='R5-header'))
         segs.extend(contract)
         segs.append(Seg('{\n', tag='R5'))
